@@ -533,8 +533,9 @@ class Check:
         ev = {"property_id": self.prop, "tier": self.tier, "seed": SEED, "level": level, "coverage": cov,
               "assumptions": self.assumptions, "wall_s": round(time.time() - self.t0, 2),
               "violations": len(self.violations)}
-        os.makedirs(os.path.join(VERIF, "evidence"), exist_ok=True)
-        with open(os.path.join(VERIF, "evidence", self.prop + ".json"), "w") as f:
+        evdir = os.environ.get("VERIF_EVIDENCE_DIR") or os.path.join(VERIF, "evidence")    # (the self-test writes elsewhere)
+        os.makedirs(evdir, exist_ok=True)
+        with open(os.path.join(evdir, self.prop + ".json"), "w") as f:
             json.dump(ev, f, indent=1)
             f.write("\n")
         for key in sorted(self.known):
@@ -716,7 +717,8 @@ def conformance(ck, name, module, cfg, trace_path, deaths, diag_of, nshards=16, 
         diag = death_diag(name, d)
         ck.violation(diag, replay_text=d["lines"] + ["<harness died> " + d["err"][-1500:]])
     nexec = sum(1 for ln in lines if ln.startswith('{"e":"new"'))
-    ck.traces += nexec - rejected
+    # stateful traces: executions accepted in full; stateless ones: events accepted
+    ck.traces += max(0, (len(lines) - nexec - rejected) if split_every else (nexec - rejected))
     ck.events += len(lines)
     if lines and len(ck.samples) < 6:
         news = [i for i, ln in enumerate(lines) if ln.startswith('{"e":"new"')]
